@@ -10,7 +10,7 @@ MODE = 'assert'
 
 
 def H(name, op, enforce, fns, arity, prio, addr, extra=(), unwind=10, timeout=900, tier='quick', what=''):
-    nmax, hmax = (4, 5) if tier == 'quick' else (6, 8)
+    nmax, hmax = (4, 5)      # larger bounds (6, 8) were planned for the thorough tier; a full run of them could not be validated in time
     pf = (AHF if addr else DHF) % arity
     cfg = 'a%d%s' % (arity, 'p' if prio else 'l')
     return Job(name='%s_%s_%s' % ('ah' if addr else 'dh', name, cfg), shim='dheap', contract='c13_dheap.c', harness='h_' + name, enforce=[enforce],
@@ -92,10 +92,10 @@ def rh_class_jobs(js):
 
 def jobs(tier):
     js = []
-    cfgs = [(2, 0, 'quick'), (3, 1, 'quick'), (1, 0, 'thorough'), (4, 0, 'thorough'), (8, 0, 'thorough'), (2, 1, 'thorough'), (3, 0, 'thorough')]
+    cfgs = [(2, 0, 'quick'), (3, 1, 'quick'), (1, 0, 'thorough'), (4, 0, 'thorough'), (8, 0, 'thorough')]
     VEC = r'std::vector<unsigned int, std::allocator<unsigned int> ?>'
     for ar, prio, t in cfgs:
-        nmax, hmax = (4, 5) if t == 'quick' else (6, 8)
+        nmax, hmax = (4, 5)
         def A(name, op, enforce, fns, extra=(), **kw):
             js.append(H(name, op, enforce, fns, ar, prio, 1, extra, tier=t, **kw))
         def D(name, op, enforce, fns, extra=(), **kw):
@@ -146,6 +146,6 @@ META = {
     'level': 'other',
     'assumptions': ['key type uint32_t; comparators std::less and a comparator reading a symbolic external priority table',
                     'induction over the operation history is the stated composition step'],
-    'not_decided': ['heaps larger than 4 (quick) / 6 (thorough) elements', 'build_heap(first, last) and build_heap(const std::vector&): libstdc++ assign/resize paths exhaust solver memory (the rvalue overload, which shares heapify(), is covered)', 'std::vector growth beyond the capacity provided by the harness (reallocation entry points are replaced by stubs that fail when reached)', 'sanity_check() (std::queue internals) and RadixHeap container operations are not under contract in this version'],
+    'not_decided': ['d-ary heaps larger than 4 elements (handles up to 5); arities other than 2, 3 (quick) and 1, 4, 8 (thorough)', 'build_heap(first, last) and build_heap(const std::vector&): libstdc++ assign/resize paths exhaust solver memory (the rvalue overload, which shares heapify(), is covered)', 'std::vector growth beyond the capacity provided by the harness (reallocation entry points are replaced by stubs that fail when reached)', 'sanity_check() (std::queue internals)', 'RadixHeap: more than 3 keys in the heap, key types other than int8_t (radix 2) / uint8_t (radix 4) at class level (the leaf functions are decided for every radix and key type), emplace variants, swap_top_bucket, RadixHeapPair'],
     'explanation': 'every heap operation enforced from an arbitrary well-formed heap; membership by ghost key, multiset by ghost value; growing operations one job per size',
 }
